@@ -56,6 +56,8 @@ def cases(draw, tier):
     r, c = TP.target_shape(g, maxn=6)
     depth = g.pick([0, 0, 1, 1, 2] + ([3] if tier == "thorough" else []))
     tree = g.op(r, c, depth)
+    if r == c and g.integer(1, 4) == 1:  # a base operator carrying a (true) declaration
+        tree = g.k_ann(r, r, 0)
     form = g.pick(["i", "ij", "is", "sj", "s", "ss", "ss", "ll"])
     uniq = "dup_index" in AVOID
     idx = {"form": form}
@@ -72,11 +74,17 @@ def cases(draw, tier):
     if form == "ss":
         idx["a"] = gen_sel(g, r, uniq)
         idx["b"] = gen_sel(g, c, uniq)
+        if r == c and g.integer(1, 3) == 1:
+            # the same positions on both axes, in a different order (a permuted principal sub-matrix is not symmetric)
+            pos = list(np.arange(r)[IR.dec_index(idx["a"])] % r)
+            if len(set(pos)) == len(pos) and len(pos) >= 2:
+                perm = g.draw(st.permutations(pos))
+                idx["a"], idx["b"] = {"ix": [int(p) for p in pos]}, {"ix": [int(p) for p in perm]}
     if form == "ll":
         m = g.integer(1, 4)
         idx["a"] = {"li": [g.integer(-r, r - 1) for _ in range(m)]}
         idx["b"] = {"li": [g.integer(-c, c - 1) for _ in range(m)]}
-    case = {"tree": tree, "idx": idx}
+    case = {"tree": tree, "idx": idx, "row": g.integer(0, 7)}
     if form in ("s", "ss"):
         nc = c if form == "s" else len(np.arange(c)[IR.dec_index(idx["b"])])
         case["X"] = g.operand(nc, ranks=(1, 2))
@@ -111,7 +119,7 @@ def ref_index(M, idx):
     return M[a, b]
 
 
-def eval_case(tree, idx, X):
+def eval_case(tree, idx, X, row=None):
     R = IR.denote(tree)
     ck = TP.Checker(R.exact, IR.tree_eps(tree))
     try:
@@ -146,6 +154,12 @@ def eval_case(tree, idx, X):
         if X is not None:
             dt = np.result_type(R.dtype, X.dtype)
             ck.value("sub_apply", lambda: got @ X, ref.astype(dt) @ X.astype(dt), refabs @ np.abs(X), (dt, got.dtype), dt)
+        # the sub-operator is an operator like any other: read one of its rows and densify its transpose
+        if ref.shape[0] > 0 and ref.shape[1] > 0 and row is not None:
+            i = row % ref.shape[0]
+            bdr = refabs[i] + (0 if R.exact else 1) * np.max(R.Mabs, initial=0)
+            ck.value("sub_row", lambda: got[i], ref[i], bdr, (R.dtype, got.dtype), R.dtype)
+            ck.value("sub_T", lambda: got.T.to_dense(), ref.T, bd.T, (R.dtype, got.dtype), R.dtype)
     else:
         bd = np.asarray(refabs) + (0 if R.exact else 1) * np.max(R.Mabs, initial=0)
         ck.value("entries:" + form, lambda: got, np.asarray(ref), bd, (R.dtype, ), R.dtype)
@@ -155,7 +169,7 @@ def eval_case(tree, idx, X):
 def check(case, out):
     tree, idx = case["tree"], case["idx"]
     X = IR.dec(case["X"]) if "X" in case else None
-    fails, R = eval_case(tree, idx, X)
+    fails, R = eval_case(tree, idx, X, case.get("row"))
     out.label(*TP.tree_labels(tree, R))
     out.label("form:" + idx["form"])
     for key in ("a", "b"):
